@@ -80,12 +80,16 @@ theorem inv_acqW {s : State} {i : Nat} {th : Th} {a : Abs} {K : Prog}
         cases h : a.wp
         · rfl
         · have := hok.wpH h; rw [hW] at this; cases this
+      have hawc : a.wc = false := by
+        cases h : a.wc
+        · rfl
+        · have := hok.wcH h; rw [hW] at this; cases this
       refine { hW := ⟨fun _ => rfl, fun _ => rfl⟩, hR := ?_, lkHeld := ?_, wlw := ?_, wlH := fun _ => rfl,
-               wpH := fun _ => rfl, tvok := hok.tvok, nofault := hok.nofault, mread := hok.mread, lv := hok.lv,
+               wpH := fun _ => rfl, wcH := fun _ => rfl, tvok := hok.tvok, nofault := hok.nofault, mread := hok.mread, lv := hok.lv,
                know := ?_, view := viewOK_congr hok.view rfl rfl rfl }
       · exact hok.hR
       · intro h; exact Or.inr rfl
-      · intro _; exact ⟨by rw [hfl.1, hawl], by rw [hfl.2, hawp]⟩
+      · intro _; exact ⟨by rw [hfl.1, hawl], by rw [hfl.2.1, hawp], by rw [hfl.2.2, hawc]⟩
       · exact hok.know.transfer rfl (fun h => h) rfl rfl rfl rfl
           (fun x hx => List.mem_append_right _ (List.mem_append_right _ hx))
     · intro j thj aj hji hj hokj
@@ -151,7 +155,7 @@ theorem inv_acqR {s : State} {i : Nat} {th : Th} {a : Abs} {K : Prog}
           exact hG.own b hb thj hj
     · refine ⟨_, hK, ?_⟩
       refine { hW := ?_, hR := ⟨fun _ => List.mem_cons_self, fun _ => rfl⟩, lkHeld := ?_, wlw := ?_,
-               wlH := hok.wlH, wpH := hok.wpH, tvok := hok.tvok, nofault := hok.nofault, mread := hok.mread, lv := hok.lv,
+               wlH := hok.wlH, wpH := hok.wpH, wcH := hok.wcH, tvok := hok.tvok, nofault := hok.nofault, mread := hok.mread, lv := hok.lv,
                know := ?_, view := viewOK_congr hok.view rfl rfl rfl }
       · exact hok.hW
       · intro _; exact Or.inl rfl
@@ -173,7 +177,7 @@ theorem inv_acqR {s : State} {i : Nat} {th : Th} {a : Abs} {K : Prog}
 
 theorem inv_relW {s : State} {i : Nat} {th : Th} {a : Abs} {K : Prog}
     (hI : Inv pf s) (hth : s.ths[i]? = some th) (hok : ThOK i s.sh th a)
-    (hW : a.hW = true) (hwl : a.wl = false) (hwp : a.wp = false)
+    (hW : a.hW = true) (hwl : a.wl = false) (hwp : a.wp = false) (hwc : a.wc = false)
     (hK : safe pf { a with hW := false, lk := false } K = true) :
     Inv pf ⟨(execOp i s.sh th .relW K).1, s.ths.set i (execOp i s.sh th .relW K).2⟩ := by
   have hG := hI.1
@@ -187,14 +191,14 @@ theorem inv_relW {s : State} {i : Nat} {th : Th} {a : Abs} {K : Prog}
     · exact hG.norace
     · exact hG.noerr
     · intro j hj; cases hj
-    · intro _; exact ⟨by rw [hfl.1, hwl], by rw [hfl.2, hwp]⟩
+    · intro _; exact ⟨by rw [hfl.1, hwl], by rw [hfl.2.1, hwp], by rw [hfl.2.2, hwc]⟩
     · exact hG.gRaw
     · exact hG.gParsed
     · exact hG.hbT
     · intro ht b hb hbw
       obtain ⟨_, h⟩ := hG.wrBy ht b hb hbw
-      rw [hfl.1, hfl.2, hwl, hwp] at h
-      rcases h with h | h <;> cases h
+      rw [hfl.1, hfl.2.1, hfl.2.2, hwl, hwp, hwc] at h
+      rcases h with h | h | h <;> cases h
     · exact hG.wrAtomicT
     · exact hG.wrNotM
     · exact hG.atomicT
@@ -222,7 +226,7 @@ theorem inv_relW {s : State} {i : Nat} {th : Th} {a : Abs} {K : Prog}
   · refine ⟨_, hK, ?_⟩
     refine { hW := ⟨fun h => (by cases h), fun h => (by cases h)⟩, hR := hok.hR, lkHeld := (by intro h; cases h),
              wlw := (by intro h; cases h), wlH := (by intro h; rw [hwl] at h; cases h),
-             wpH := (by intro h; rw [hwp] at h; cases h), tvok := hok.tvok,
+             wpH := (by intro h; rw [hwp] at h; cases h), wcH := (by intro h; rw [hwc] at h; cases h), tvok := hok.tvok,
              nofault := hok.nofault, mread := hok.mread, lv := hok.lv,
              know := ?_, view := viewOK_congr hok.view rfl rfl rfl }
     exact hok.know.transfer rfl (by intro h; cases h) rfl rfl rfl rfl (fun x hx => hx)
@@ -300,7 +304,7 @@ theorem inv_relR {s : State} {i : Nat} {th : Th} {a : Abs} {K : Prog}
         exact hG.own b hb thj hj
   · refine ⟨_, hK, ?_⟩
     refine { hW := hok.hW, hR := ⟨fun h => (by cases h), fun h => ?_⟩, lkHeld := (by intro h; cases h),
-             wlw := hok.wlw, wlH := hok.wlH, wpH := hok.wpH, tvok := hok.tvok,
+             wlw := hok.wlw, wlH := hok.wlH, wpH := hok.wpH, wcH := hok.wcH, tvok := hok.tvok,
              nofault := hok.nofault, mread := hok.mread, lv := hok.lv,
              know := ?_, view := viewOK_congr hok.view rfl rfl rfl }
     · simp [List.mem_filter] at h
@@ -319,7 +323,7 @@ theorem inv_setLockVar {s : State} {i : Nat} {th : Th} {a : Abs} {K : Prog}
   apply inv_update hI hth
   · exact glob_local hI.1 hth rfl
   · refine ⟨_, hK, ?_⟩
-    exact { hW := hok.hW, hR := hok.hR, lkHeld := hok.lkHeld, wlw := hok.wlw, wlH := hok.wlH, wpH := hok.wpH,
+    exact { hW := hok.hW, hR := hok.hR, lkHeld := hok.lkHeld, wlw := hok.wlw, wlH := hok.wlH, wpH := hok.wpH, wcH := hok.wcH,
             tvok := hok.tvok, nofault := hok.nofault, mread := hok.mread, lv := hok.mread,
             know := hok.know.transfer rfl (fun h => h) rfl rfl rfl rfl (fun x hx => hx),
             view := viewOK_congr hok.view rfl rfl rfl }
